@@ -13,6 +13,7 @@ Only property theorems and non-vacuity examples live here.
 -/
 import FDAProofs.Lemmas.FPCA
 import FDAProofs.Lemmas.SqrtQ
+import FDAModel.Generated.UfpcaFormulas
 import Mathlib.Tactic.NormNum
 import Mathlib.Tactic.Positivity
 import Mathlib.Analysis.SpecialFunctions.Sqrt
@@ -465,6 +466,60 @@ theorem mercer_truncated_psd_real (m K : ℕ) (hK : K ≤ m) (w : ℕ → ℝ) (
     0 ≤ ∑ i ∈ range m, ∑ j ∈ range m,
       x i * (C i j - mercer K lam (backTransform (fun j => Real.sqrt (w j)) U) i j) * x j :=
   mercer_truncated_psd m K hK _ C U lam (fun j hj => (Real.sqrt_pos.2 (hw j hj)).ne') hrows heig hlam x
+
+/-! ### The formulas as written in the source (translator `harness/c02_translate.py`)
+
+`FDA.Generated.ufpcaFit` is re-extracted with `ast` from `ufpca._fit_covariance`, `ufpca._fit_inner_product` and
+`utils._compute_covariance` on every run.  The theorems below prove that the formulas so written are the functions all
+C02 theorems are about; harmless rewritings (`U.T @ W^{-1/2}` for `(W^{-1/2} @ U).T`, `weight ** 0.5`, `np.dot` for `@`)
+re-prove, a swapped `W^{1/2}`/`W^{-1/2}`, a one-sided product, a dropped square root, a missing transpose or another
+divisor break them. -/
+
+section source
+open FDA.Generated
+
+/-- Closing tactic robust to the harmless variants the translator recognises. -/
+macro "src_close" : tactic =>
+  `(tactic| first
+    | rfl
+    | (norm_num [ufpcaFit, symMatP, backTransformP, gramEigfunP, gramEigvalP, mercerP, diagP, symMat, backTransform,
+        gramEigfun, gramEigval, mercer] <;> first | done | ring | (field_simp) | (field_simp; ring)))
+
+/-- The powers of the quadrature weights (`W^{1/2}`, `W^{-1/2}`), the trapezoid rule, the re-centred curves and the
+transposed storage of the Gram-route eigenfunctions, as written in the source. -/
+theorem fit_flags_src :
+    ufpcaFit.sqrtPow = 1 / 2 ∧ ufpcaFit.invPow = -1 / 2 ∧ ufpcaFit.quadTrapz = true ∧ ufpcaFit.gramInpro = true
+      ∧ ufpcaFit.gramResultT = true := by
+  refine ⟨?_, ?_, ?_, ?_, ?_⟩ <;> norm_num [ufpcaFit]
+
+/-- `covariance_matrix = … @ covariance @ …` as written is the model's `symMat` (`S C S`). -/
+theorem symMat_src_eq_model {F : Type} [Field F] (s sinv : ℕ → F) (C : ℕ → ℕ → F) (i j : ℕ) :
+    symMatP ufpcaFit s sinv C i j = symMat s C i j := by
+  src_close
+
+/-- The eigenfunctions as recovered in the source (`W^{-1/2}` applied to the solver vectors, transposed) are the
+model's `backTransform` (`sinv` is the diagonal of `W^{-1/2}`). -/
+theorem backTransform_src_eq_model {F : Type} [Field F] (s sinv : ℕ → F) (U : ℕ → ℕ → F) (k j : ℕ)
+    (hinv : sinv j = 1 / s j) : backTransformP ufpcaFit s sinv U k j = backTransform s U k j := by
+  unfold backTransformP backTransform
+  norm_num [ufpcaFit, diagP, hinv] <;> first | done | ring
+
+/-- Gram route: `values.T @ eigenvectors / np.sqrt(eigenvalues)` as written is `gramEigfun` (`r = √l`). -/
+theorem gramEigfun_src_eq_model {F : Type} [Field F] (N : ℕ) (Xc V : ℕ → ℕ → F) (r l : ℕ → F) (k j : ℕ) :
+    gramEigfunP ufpcaFit N Xc V r l k j = gramEigfun N Xc V r k j := by
+  src_close
+
+/-- … and `eigenvalues / n_obs` is `gramEigval`. -/
+theorem gramEigval_src_eq_model {F : Type} [Field F] (N : ℕ) (l : ℕ → F) (k : ℕ) :
+    gramEigvalP ufpcaFit N l k = gramEigval N l k := by
+  src_close
+
+/-- `_compute_covariance` as written is the model's Mercer sum. -/
+theorem mercer_src_eq_model {F : Type} [Field F] (K : ℕ) (lam r : ℕ → F) (Phi : ℕ → ℕ → F) (i j : ℕ) :
+    mercerP ufpcaFit K lam r Phi i j = mercer K lam Phi i j := by
+  src_close
+
+end source
 
 /-! ### Non-vacuity -/
 
